@@ -408,7 +408,13 @@ impl Acc for AProp {
         Ok(())
     }
     fn from_items(its: &[Item]) -> Result<Self, String> {
-        Ok(AProp(its.iter().map(|i| i.flag).collect()))
+        if its.len() % 2 == 0 {
+            Ok(AProp(its.iter().map(|i| i.flag).collect()))
+        } else {
+            // through a filtering iterator, whose size_hint upper bound exceeds the number of items it yields
+            let padded: Vec<Option<bool>> = its.iter().flat_map(|i| [Some(i.flag), None]).collect();
+            Ok(AProp(padded.into_iter().flatten().collect()))
+        }
     }
     fn plus(a: &Self, b: &Self) -> Self {
         AProp(a.0 + b.0)
